@@ -568,12 +568,15 @@ func pingHandover(c *run.Ctx, variant string) {
 // c11PendingConnect issues requests while a reconnect attempt stays pending
 // for several periods of the client's poll, fires some of their quits while it
 // is still pending, and then lets the attempt fail with nothing following it.
-func c11PendingConnect(c *run.Ctx) {
+func c11PendingConnect(c *run.Ctx, kind int) {
 	ep := newEpisode(c)
 	w := ep.W
 	defer w.Shutdown()
 	ep.F.Off = true
 	failKind := c.Rng.Intn(4) // 3: the attempt succeeds
+	if kind >= 0 {
+		failKind = kind
+	}
 	if err := ep.Init(); err != nil {
 		c.Violate("init-failed", err.Error(), nil)
 		return
@@ -925,7 +928,7 @@ func init() {
 				return
 			}
 			if c.Case%10 == 8 {
-				c11PendingConnect(c)
+				c11PendingConnect(c, -1)
 				return
 			}
 			if c.Case == 7 || c.Tier == "thorough" && c.Case%200 == 7 {
